@@ -148,17 +148,24 @@ def impl_sweeps(payload):
     rng = np.random.default_rng(payload['seed'])
     res = {'records': 0, 'particles': 0, 'headers': 0, 'runs': 0, 'fail': [], 'field_values_seen': []}
     seen = np.zeros((6, 4096), dtype=bool)
-    for rep in range(payload['reps']):
+    # (records, header-free stretch): the last run of each precision has ONE CROWDED CELL - 150 000 consecutive particle records
+    # without a header, longer than any internal block/chunk size - followed by ordinary cells: every particle of the stretch
+    # and after it is still relative to the most recent header
+    runs = [(rep, payload['n'], None) for rep in range(payload['reps'])] + [(0, 210000, (30000, 180000))]
+    for rep, n, crowded in runs:
         for dcode in ('f4', 'f8'):
             dt = _np_dtype(dcode)
             box, velz = SCALES[(rep + (dcode == 'f8')) % len(SCALES)]
-            n = payload['n']
             f = rng.integers(0, 4096, (n, 6))
             # every value of every field at least once per run
             for k in range(6):
                 f[k * 4096:(k + 1) * 4096, k] = np.arange(4096)
             is_hdr = rng.random(n) < 0.03
             is_hdr[0] = rep % 2 == 0           # odd repetitions start with particles before any header
+            if crowded:
+                f[crowded[0]:crowded[1], 0] %= 4080
+                is_hdr[crowded[0]:crowded[1]] = False
+                is_hdr[crowded[0] - 1] = True
             is_hdr[f[:, 0] >= 4080] = True     # first byte 0xFF: a header by definition
             nh = int(is_hdr.sum())
             cpd = rng.integers(1, MAXCPD[dcode] + 1, nh)
